@@ -161,6 +161,12 @@ fn gen_generics(rng: &mut Rng, wide: bool) -> Generics {
                 preds.push(format!("{t}: {}", rng.pick(&["Copy", "Default", "Ord + Clone", "Into<u8>"])));
             }
         }
+        if rng.chance(1, 6) {
+            preds.push(format!("for<'x> {}: Fn(&'x u8) -> u8", g.types[0]));
+        }
+        if rng.chance(1, 6) {
+            preds.push(format!("Vec<{}>: ::core::fmt::Debug", g.types[0]));
+        }
         if !preds.is_empty() {
             g.where_clause = format!(" where {}", preds.join(", "));
         }
@@ -169,6 +175,22 @@ fn gen_generics(rng: &mut Rng, wide: bool) -> Generics {
 }
 
 fn gen_leaf(rng: &mut Rng, g: &Generics) -> String {
+    // now and then a type shape the repository's examples never show
+    if rng.chance(1, 14) {
+        let t = if g.types.is_empty() { "u8" } else { g.types[rng.usize(g.types.len())] };
+        return match rng.below(10) {
+            0 => "Box<dyn ::core::fmt::Debug + 'static>".to_string(),
+            1 => format!("fn(u8) -> {t}"),
+            2 => format!("*const {t}"),
+            3 => "&'static str".to_string(),
+            4 => format!("::std::collections::HashMap<String, {t}>"),
+            5 => format!("<{t} as ::core::iter::Iterator>::Item"),
+            6 => format!("[{t}; {{ 1 + 2 }}]"),
+            7 => format!("(({t},), [u8; 0], ())"),
+            8 => "r#type".to_string(),
+            _ => format!("Option<Box<Vec<Option<{t}>>>>"),
+        };
+    }
     match rng.below(20) {
         0..=8 if !g.types.is_empty() => rng.pick(&g.types).to_string(),
         9..=10 => {
@@ -298,6 +320,76 @@ fn field_attr_for(rng: &mut Rng, tr: &str, idx: usize, named: bool) -> Option<St
     })
 }
 
+/// Alternative spellings the parser accepts for the same request (string-literal and `=` forms).
+fn respell(rng: &mut Rng, frag: &str) -> String {
+    let mut out = frag.to_string();
+    // method(path) -> method = "path" | method("path") | method = path
+    if let Some(i) = out.find("method(") {
+        if let Some(j) = out[i..].find(')') {
+            let path = out[i + 7..i + j].to_string();
+            if !path.contains('"') {
+                let rep = match rng.below(3) {
+                    0 => format!("method = \"{path}\""),
+                    1 => format!("method(\"{path}\")"),
+                    _ => format!("method = {path}"),
+                };
+                out.replace_range(i..i + j + 1, &rep);
+                return out;
+            }
+        }
+    }
+    if let Some(i) = out.find("name(") {
+        if let Some(j) = out[i..].find(')') {
+            let n = out[i + 5..i + j].to_string();
+            if !n.contains('"') {
+                let rep = match rng.below(3) {
+                    0 => format!("name = \"{n}\""),
+                    1 => format!("name(\"{n}\")"),
+                    _ => format!("name = {n}"),
+                };
+                out.replace_range(i..i + j + 1, &rep);
+                return out;
+            }
+        }
+    }
+    if let Some(i) = out.find("rank = ") {
+        let tail = &out[i + 7..];
+        let end = tail.find([',', ')']).unwrap_or(tail.len());
+        let n = tail[..end].trim().to_string();
+        if !n.contains('"') && !n.is_empty() {
+            let rep = if rng.chance(1, 2) { format!("rank = \"{n}\"") } else { format!("rank({n})") };
+            out.replace_range(i..i + 7 + end, &rep);
+            return out;
+        }
+    }
+    if let Some(i) = out.find("bound(") {
+        // matching parenthesis
+        let bytes = out.as_bytes();
+        let mut depth = 0i32;
+        let mut j = i + 5;
+        while j < bytes.len() {
+            if bytes[j] == b'(' {
+                depth += 1;
+            } else if bytes[j] == b')' {
+                depth -= 1;
+                if depth == 0 {
+                    break;
+                }
+            }
+            j += 1;
+        }
+        if j < bytes.len() {
+            let preds = out[i + 6..j].to_string();
+            if preds != "*" && !preds.contains('"') {
+                let rep = if rng.chance(1, 2) { format!("bound = \"{preds}\"") } else { format!("bound(\"{preds}\")") };
+                out.replace_range(i..j + 1, &rep);
+                return out;
+            }
+        }
+    }
+    out
+}
+
 fn gen_field_attrs(rng: &mut Rng, traits: &[&str], idx: usize, rich: bool, named: bool, default_ok: bool) -> Vec<String> {
     let mut out = vec![];
     let has = |t: &str| traits.contains(&t);
@@ -311,7 +403,23 @@ fn gen_field_attrs(rng: &mut Rng, traits: &[&str], idx: usize, rich: bool, named
             "Default" if !default_ok => continue,
             _ => {},
         }
-        if let Some(a) = field_attr_for(rng, tr, idx, named) {
+        if let Some(mut a) = field_attr_for(rng, tr, idx, named) {
+            // two parameters in one request (`Ord(rank = 3, method(cmp))`, `Debug(name(x), method(f))`)
+            if rng.chance(1, 8) {
+                let extra = match *tr {
+                    "Ord" | "PartialOrd" if a.contains("rank") => Some(format!("method({})", method_path(rng, "cmp"))),
+                    "Ord" | "PartialOrd" if a.contains("method") => Some(format!("rank = {}", 100 + idx)),
+                    "Debug" if a.contains("method") && named => Some(format!("name(shown{idx})")),
+                    "Debug" if a.contains("name(") => Some(format!("method({})", method_path(rng, "fmt"))),
+                    _ => None,
+                };
+                if let (Some(e), Some(pos)) = (extra, a.rfind(')')) {
+                    a.insert_str(pos, &format!(", {e}"));
+                }
+            }
+            if rng.chance(1, 7) {
+                a = respell(rng, &a);
+            }
             out.push(a);
         }
     }
@@ -325,7 +433,20 @@ fn gen_fields(rng: &mut Rng, g: &Generics, named: bool, n: usize, traits: &[&str
         let ty = if i > 0 && rng.chance(1, 3) { v[rng.usize(i)].ty.clone() } else { gen_type(rng, g, 0) };
         let attrs = gen_field_attrs(rng, traits, i, rich, named, default_ok);
         let mut fname = format!("f{i}");
-        if named && rng.chance(1, 8) {
+        if named && rng.chance(1, 30) {
+            fname = match rng.below(4) {
+                0 => format!("r#type{}", if i == 0 { "".to_string() } else { i.to_string() }).replace("r#type1", "r#match").replace("r#type2", "r#fn").replace("r#type3", "r#struct"),
+                1 => format!("caf\u{e9}{i}"),
+                2 => format!("\u{540d}\u{524d}{i}"),
+                _ => format!("a_very_long_field_name_that_goes_on_and_on_and_on_{i}"),
+            };
+            if fname.starts_with("r#") && fname.chars().last().map(|c| c.is_ascii_digit()).unwrap_or(false) {
+                fname = format!("r#loop");
+            }
+            if v.iter().any(|f: &Field| f.name.as_deref() == Some(fname.as_str())) {
+                fname = format!("f{i}");
+            }
+        } else if named && rng.chance(1, 8) {
             if let Some(n) = template_lower(rng) {
                 if !v.iter().any(|f: &Field| f.name.as_deref() == Some(n)) {
                     fname = n.to_string();
@@ -342,6 +463,20 @@ fn render_attr_list(rng: &mut Rng, frags: &[String], indent: &str) -> String {
     let mut s = String::new();
     let mut i = 0;
     while i < frags.len() {
+        // other people's attributes and doc comments in between
+        if rng.chance(1, 12) {
+            s.push_str(&format!(
+                "{indent}{}\n",
+                rng.pick(&[
+                    "/// documented",
+                    "#[doc = \"also documented\"]",
+                    "#[allow(dead_code)]",
+                    "#[cfg_attr(test, allow(unused))]",
+                    "#[serde(rename = \"x\")]",
+                    "#[doc(hidden)]",
+                ])
+            ));
+        }
         let take = if rng.chance(1, 3) { 1 } else { rng.range(1, (frags.len() - i) as u64) as usize };
         s.push_str(&format!("{indent}#[educe({})]\n", frags[i..i + take].join(", ")));
         i += take;
@@ -500,7 +635,8 @@ fn build_model(rng: &mut Rng, name: &str, opts: &GenOpts) -> Model {
         if params.is_empty() {
             type_frags.push(tr.to_string());
         } else {
-            type_frags.push(format!("{tr}({})", params.join(", ")));
+            let f = format!("{tr}({})", params.join(", "));
+            type_frags.push(if rng.chance(1, 8) { respell(rng, &f) } else { f });
         }
     }
 
@@ -511,7 +647,7 @@ fn build_model(rng: &mut Rng, name: &str, opts: &GenOpts) -> Model {
         Kind::StructUnit => {},
         Kind::StructNamed | Kind::StructTuple | Kind::Union => {
             let named = kind != Kind::StructTuple;
-            let n = if wide { rng.range(2, 8) } else { rng.range(1, 3) } as usize;
+            let n = if rng.chance(1, 25) { rng.range(13, 18) } else if wide { rng.range(2, 8) } else { rng.range(1, 3) } as usize;
             fields = gen_fields(rng, &g, named, n, &traits, rich, true);
             if kind == Kind::Union {
                 for f in fields.iter_mut() {
@@ -566,7 +702,15 @@ fn build_model(rng: &mut Rng, name: &str, opts: &GenOpts) -> Model {
                     attrs: vattrs,
                     shape,
                     fields: vfields,
-                    disc: if with_disc && shape == Shape::Unit { Some((vi as i64) * 3 - 2) } else { None },
+                    disc: if with_disc && shape == Shape::Unit {
+                        Some(match rng.below(6) {
+                            0 => -128 + vi as i64,
+                            1 => 0x7fff_fff0 + vi as i64,
+                            _ => (vi as i64) * 3 - 2,
+                        })
+                    } else {
+                        None
+                    },
                 });
             }
         },
